@@ -59,6 +59,68 @@ def inf_rule(ctx, rule="C08.inf"):
                 "a particle with log-likelihood -inf gets 0 * -inf = NaN instead of weight 0, so log_weights raises / the evidence ratio is NaN") if bad else "")
 
 
+def inline_ratio_rule(ctx, repo, sample, loop_node, resumed, tag, R) -> bool:
+    """The loop computes the increment itself instead of calling log_evidence_ratio(): the recorded value must still be
+    LSE(W) - log N with W the incremental log-weights of the population at the loop head *for the temperature this iteration
+    moves to* -- decided on values, with determine_beta inlined, separately on each branch of the schedule options.
+    Returns False when the appended value has no such shape (the caller then reports the shape as undecided)."""
+    import itertools
+
+    from ..evalr import is_scalar, lse
+    sf = fold_sample(repo, resumed=resumed, final=False, inline_db=True)
+    lp = sf.loop
+    if lp is None:
+        return False
+    head_s, head_b, body_b = lp["head"].get(R.samples), lp["head"].get(R.beta), lp["body"].get(R.beta)
+    aps = [a for a in sf.events("method:append", in_loop=True) if a.args and a.args[0][0] == "attr" and a.args[0][2] == "log_norm_ratio"]
+    if len(aps) != 1 or head_s is None or body_b is None:
+        return False
+    val = T.strip_raise(aps[0].args[1])
+    W = None
+    for x in T.subterms(val):
+        if x and x[0] == "f" and x[1] == "max" and len(x[2]) == 1:
+            for n_ in (T.app("len", head_s), T.app("len", ("attr", head_s, "x"))):
+                if val == T.sub(lse(x[2][0]), T.app("log", n_)):
+                    W = x[2][0]
+    if W is None:
+        return False
+    conds = []
+
+    def top_conds(t):
+        if isinstance(t, tuple) and t and t[0] == "phi":
+            if t[1] not in conds:
+                conds.append(t[1])
+            top_conds(t[2])
+            top_conds(t[3])
+    top_conds(W)
+    a = lambda n: ("attr", head_s, n)
+    ratio = spec("L + P - Q", L=a("log_likelihood"), P=a("log_prior"), Q=a("log_q"))
+    n_br = 0
+    for bits in itertools.product((True, False), repeat=len(conds[:4])):
+        asg = dict(zip(conds, bits))
+        orc = lambda c: asg.get(c)
+        Wk, bk = T.resolve(W, orc), T.resolve(body_b, orc)
+        if Wk[0] == "phi" or bk is None:
+            continue
+        n_br += 1
+        where = ", ".join(f"{T.show(c)[:30]}={v}" for c, v in asg.items()) or "all options"
+        ok, why = False, ""
+        if Wk[0] == "f" and Wk[1] in ("method:unnormalized_log_weights", "method:log_weights") and len(Wk[2]) == 2:
+            ok = Wk[2][0] == head_s and Wk[2][1] == bk
+            why = f"the weights are {T.show(Wk)[:120]}, not those of the loop-head population at this iteration's temperature"
+        else:
+            for bs in (a("beta"), head_b):
+                d = T.sub(Wk, T.mul(T.sub(bk, bs), ratio))
+                if d == T.ZERO or is_scalar(d):
+                    ok = True
+            why = (f"the increment is computed from W = {T.show(Wk)[:160]}, which is not (beta' - beta)(L + P - Q) for the temperature beta' = {T.show(bk)[:120]} the iteration "
+                   "moves to: when the step taken differs from the one the weights were evaluated for (a step forced by the minimum step, a clamp), the recorded ratio is that of another "
+                   "temperature move and the increments no longer telescope to the evidence")
+        ctx.decide(ok, "C08.pre", sample.ident, loc_of(sample, aps[0].node), f"[{tag}; {where}] the recorded increment is LSE(W) - log N with W the incremental weights for this iteration's temperature",
+                   f"[{tag}; {where}] " + why, disc=f"{tag}|inline|{n_br}")
+    return n_br > 0
+
+
 def run(ctx):
     repo = ctx.repo
     inf_rule(ctx)
@@ -162,6 +224,8 @@ def run(ctx):
             and head_s in body_b[1][2] and head_b in body_b[1][2]
         for callee, series in (("method:log_evidence_ratio", "log_norm_ratio"), ("method:log_evidence_ratio_variance", "log_norm_ratio_var")):
             evs = sf.events(callee, in_loop=True)
+            if len(evs) == 0 and series == "log_norm_ratio" and inline_ratio_rule(ctx, repo, sample, loop_node, resumed, tag, R):
+                continue
             if len(evs) != 1:
                 ctx.unknown("C08.pre", sample.ident, loc_of(sample, loop_node), f"[{tag}] expected one {callee} call in the loop, found {len(evs)}", disc=f"{tag}|{series}")
                 continue
@@ -251,7 +315,14 @@ MUTANTS += [
 MUTANTS += [
     M("per-step ratio returned as a Python float", "src/aspire/samples.py", "return logsumexp(log_w) - math.log(len(self.x))", "return float(logsumexp(log_w) - math.log(len(self.x)))", "C08evid.evid"),
 ]
+_IMP = [("from ...utils import (\n    asarray,", "from ...utils import (\n    logsumexp,\n    asarray,"), ("import copy\nimport logging", "import copy\nimport math\nimport logging")]
+MUTANTS += [
+    M("increment computed in the loop from the weights of the previous temperature", "src/aspire/samplers/smc/base.py", "log_evidence_ratio = samples.log_evidence_ratio(beta)",
+      "log_evidence_ratio = logsumexp(samples.unnormalized_log_weights(samples.beta)) - math.log(len(samples.x))", "C08.pre", more=_IMP),
+]
 NEUTRALS = [
+    M("increment computed in the loop from the incremental weights of this iteration's temperature", "src/aspire/samplers/smc/base.py", "log_evidence_ratio = samples.log_evidence_ratio(beta)",
+      "log_evidence_ratio = logsumexp(samples.unnormalized_log_weights(beta)) - math.log(len(samples.x))", more=_IMP),
     __import__("aspire_sa.rules.smcloop", fromlist=["HELPER_NEUTRAL"]).HELPER_NEUTRAL,
     M("incremental weight with the difference named", _S, "return (self.beta - beta) * self.log_q + (beta - self.beta) * (\n            self.log_likelihood + self.log_prior\n        )", "db = beta - self.beta\n        return db * (self.log_likelihood + self.log_prior) - db * self.log_q"),
     M("history through a local alias", _B, "self.history.log_norm_ratio.append(log_evidence_ratio)", "hist = self.history\n                hist.log_norm_ratio.append(log_evidence_ratio)"),
